@@ -74,6 +74,11 @@ def _run_job(job, scratch, stop_on_fail=False):
                               "sourceLocation": pr.get("sourceLocation", {})}) == "technical_ub":
                 job.technical_ub.append({"id": pr["name"], "desc": pr.get("description", ""),
                                          "loc": _loc({"sourceLocation": pr.get("sourceLocation", {})})})
+            elif getattr(job, "clause_filter", None) is not None and re.match(r'(post|pre|invariant)\b', pr.get("description", "")) \
+                    and re.search(r'\bC\d\d\b', pr.get("description", "")) and not job.clause_filter.search(pr.get("description", "")):
+                # a contract clause that belongs to another property's check of the same unit (shared units: Plan, dirty scan):
+                # decided there, not here
+                job.other_clauses = getattr(job, "other_clauses", 0) + 1
             else:
                 selected.append(pr["name"])
         job.argv_base = argv
@@ -86,6 +91,10 @@ def _run_job(job, scratch, stop_on_fail=False):
         for mt, m in msgs:
             if 'ignoring' in m and ('forall' in m or 'exists' in m or 'quantif' in m):
                 raise Undecided("back end ignored a quantifier: " + m)
+        if getattr(job, "strict_bodies", False):
+            nb = sorted({m for mt, m in msgs if mt == "NOBODY"})
+            if nb:
+                raise Undecided("functions without a body would be havocked silently: %s" % ", ".join(nb)[:300])
         canaries_failed = 0
         canaries_total = 0
         unknown = []
